@@ -67,7 +67,9 @@ def build(tier, seed):
     def _literal_end():
         return scanners.literal_end(PROP)
     _literal_end.__name__ = "literal_end"
-    tasks = [a_task(PROP, _get_deps), a_task(PROP, _literal_end), a_task(PROP, calls.strip_paren), a_task(PROP, calls.assoc_getitem), a_task(PROP, calls.assoc_contains), a_task(PROP, calls.assoc_remove_last), a_task(PROP, _quote_split),
+    tasks = [standin_task(PROP, "parser.spelling_equivalence", lambda: __import__("bounded.c01", fromlist=["x"]).search(), "ford.sourceform (real parser)",
+                          "names given shape by DIMENSION / ALLOCATABLE / POINTER / TARGET statements are variables in any letter case: their element references are not calls", "model programs of C01"),
+             a_task(PROP, _get_deps), a_task(PROP, _literal_end), a_task(PROP, calls.strip_paren), a_task(PROP, calls.assoc_getitem), a_task(PROP, calls.assoc_contains), a_task(PROP, calls.assoc_remove_last), a_task(PROP, _quote_split),
              Task(f"{PROP}.S.associate_order", PROP, "FortranContainer.__init__", lambda: calls.associate_order(PROP, lambda: __import__("bounded.c08", fromlist=["x"]).search())),
              a_task(PROP, _continuation),
              a_task(PROP, _fx),
